@@ -509,3 +509,183 @@ Proof.
   - assumption.
   - unfold bmeasure, rmeasure, b_init, r_init. cbn [b_r b_idx r_zeroes r_literal r_err]. lia.
 Qed.
+
+(* ------------------------------------------------------------ (b) unpack_partial vs unpack *)
+
+Lemma take_bits_app : forall n tag s w s1 b,
+  take_bits n tag s = Some (w, s1) -> take_bits n tag (s ++ b) = Some (w, s1 ++ b).
+Proof.
+  induction n as [|n IH]; intros tag s w s1 b H; cbn [take_bits] in *.
+  - injection H as <- <-. reflexivity.
+  - destruct (Z.odd tag).
+    + destruct s as [|x s0]; [discriminate|]. cbn [app].
+      destruct (take_bits n (tag / 2) s0) as [[w0 s0']|] eqn:E; [|discriminate].
+      injection H as <- <-. now rewrite (IH _ _ _ _ b E).
+    + destruct (take_bits n (tag / 2) s) as [[w0 s0']|] eqn:E; [|discriminate].
+      injection H as <- <-. now rewrite (IH _ _ _ _ b E).
+Qed.
+
+(* a tag word that is cut can be completed *)
+Lemma take_bits_complete : forall n tag s, take_bits n tag s = None ->
+  exists e w, bytes_ok e /\ take_bits n tag (s ++ e) = Some (w, []).
+Proof.
+  induction n as [|n IH]; intros tag s H; cbn [take_bits] in H; [discriminate|].
+  assert (B0 : byte_ok 0) by (unfold byte_ok; lia).
+  destruct (Z.odd tag) eqn:Eo.
+  - destruct s as [|x s0].
+    + destruct (take_bits n (tag / 2) []) as [[w0 s0']|] eqn:E.
+      * pose proof (take_bits_length _ _ _ _ _ E) as (_ & Hl & _). cbn [length] in Hl.
+        destruct s0'; [|cbn [length] in Hl; lia].
+        exists [0], (0 :: w0). split; [constructor; [exact B0|constructor]|].
+        cbn [app take_bits]. now rewrite Eo, E.
+      * destruct (IH _ _ E) as (e & w & He & Ht). cbn [app] in Ht.
+        exists (0 :: e), (0 :: w). split; [constructor; assumption|].
+        cbn [app take_bits]. now rewrite Eo, Ht.
+    + destruct (take_bits n (tag / 2) s0) as [[w0 s0']|] eqn:E; [discriminate|].
+      destruct (IH _ _ E) as (e & w & He & Ht).
+      exists e, (x :: w). split; [assumption|]. cbn [app take_bits]. now rewrite Eo, Ht.
+  - destruct (take_bits n (tag / 2) s) as [[w0 s0']|] eqn:E; [discriminate|].
+    destruct (IH _ _ E) as (e & w & He & Ht).
+    exists e, (0 :: w). split; [assumption|]. cbn [take_bits]. now rewrite Eo, Ht.
+Qed.
+
+Lemma firstn_app_le {A} k (a b : list A) : (k <= length a)%nat -> firstn k (a ++ b) = firstn k a.
+Proof.
+  intros H. rewrite firstn_app. replace (k - length a)%nat with O by lia.
+  cbn [firstn]. apply app_nil_r.
+Qed.
+
+Lemma skipn_app_le {A} k (a b : list A) : (k <= length a)%nat -> skipn k (a ++ b) = skipn k a ++ b.
+Proof.
+  intros H. rewrite skipn_app. replace (k - length a)%nat with O by lia. reflexivity.
+Qed.
+
+(* an accepted prefix contributes exactly its one-shot output *)
+Lemma Some_inj {A} (a b : A) : Some a = Some b -> a = b.
+Proof. congruence. Qed.
+
+Lemma unpack_partial_app_n : forall n a b oa, (length a <= n)%nat ->
+  unpack_s true a = Some oa -> unpack_partial (a ++ b) = pmap oa (unpack_partial b).
+Proof.
+  induction n as [|n IH]; intros a b oa Hn H.
+  { destruct a; [|simpl in Hn; lia]. rewrite unpack_s_nil in H. apply Some_inj in H; subst oa.
+    cbn [app]. now rewrite pmap_nil. }
+  destruct a as [|tag s].
+  { rewrite unpack_s_nil in H. apply Some_inj in H; subst oa. cbn [app]. now rewrite pmap_nil. }
+  cbn [length] in Hn. cbn [app]. rewrite unpack_s_cons in H. rewrite unpack_partial_cons.
+  destruct (take_bits 8 tag s) as [[w s1]|] eqn:E; [|discriminate].
+  rewrite (take_bits_app _ _ _ _ _ b E).
+  apply take_bits_length in E. destruct E as (_ & E & _).
+  destruct (tag =? 0).
+  { destruct s1 as [|c s2]; [discriminate|]. cbn [length] in E. cbn [app].
+    destruct (unpack_s true s2) as [r|] eqn:E2; [|discriminate]. cbn [option_map] in H.
+    apply Some_inj in H; subst oa. rewrite (IH s2 b r) by (assumption || lia).
+    rewrite pmap_pmap. now rewrite <- !app_assoc. }
+  destruct (tag =? 255).
+  { destruct s1 as [|c s2]; [discriminate|]. cbn [length] in E. cbn [app]. cbv zeta in H |- *.
+    rewrite andb_true_l in H.
+    destruct (length s2 <? 8 * Z.to_nat c)%nat eqn:El; [discriminate|].
+    replace (length (s2 ++ b) <? 8 * Z.to_nat c)%nat with false by (rewrite app_length; lia).
+    rewrite firstn_app_le, skipn_app_le by lia.
+    destruct (unpack_s true (skipn (8 * Z.to_nat c) s2)) as [r|] eqn:E2; [|discriminate].
+    cbn [option_map] in H. apply Some_inj in H; subst oa.
+    rewrite (IH (skipn (8 * Z.to_nat c) s2) b r); [|rewrite skipn_length; lia|assumption].
+    rewrite pmap_pmap. replace (8 * Z.to_nat c - length s2)%nat with O by lia.
+    change (zeros 0) with (@nil Z). cbn [app]. now rewrite <- !app_assoc. }
+  destruct (unpack_s true s1) as [r|] eqn:E2; [|discriminate]. cbn [option_map] in H.
+  apply Some_inj in H; subst oa. rewrite (IH s1 b r) by (assumption || lia). now rewrite pmap_pmap.
+Qed.
+
+(* completeness: whatever follows an accepted prefix, the determined output starts with the
+   one-shot output of that prefix (and continues with the determined output of the rest) *)
+Theorem unpack_partial_app good rest out : unpack good = Some out ->
+  unpack_partial (good ++ rest) = pmap out (unpack_partial rest).
+Proof. intros H. apply (unpack_partial_app_n (length good)); [lia|exact H]. Qed.
+
+Corollary unpack_partial_prefix good rest out : unpack good = Some out ->
+  exists extra, fst (unpack_partial (good ++ rest)) = out ++ extra.
+Proof.
+  intros H. rewrite (unpack_partial_app _ _ _ H). exists (fst (unpack_partial rest)). reflexivity.
+Qed.
+
+(* soundness: the determined output is a prefix of what the one-shot decoder returns on an
+   accepted extension of the string -- no byte of it is invented *)
+Lemma unpack_partial_sound_n : forall n src, (length src <= n)%nat -> bytes_ok src ->
+  exists ext more, bytes_ok ext /\
+    unpack_s true (src ++ ext) = Some (fst (unpack_partial src) ++ more).
+Proof.
+  assert (B0 : bytes_ok [0]) by (repeat constructor; unfold byte_ok; lia).
+  induction n as [|n IH]; intros src Hn Hb.
+  { destruct src; [|simpl in Hn; lia]. exists [], []. split; [constructor|reflexivity]. }
+  destruct src as [|tag s].
+  { exists [], []. split; [constructor|reflexivity]. }
+  cbn [length] in Hn. inversion Hb as [|? ? Htag Hs]; subst.
+  rewrite unpack_partial_cons. cbn [app].
+  destruct (take_bits 8 tag s) as [[w s1]|] eqn:E.
+  2:{ (* the tag word itself is cut *)
+    destruct (take_bits_complete _ _ _ E) as (e & w & He & Ht).
+    destruct (tag =? 0) eqn:E0.
+    { exists (e ++ [0]). eexists. split; [apply bytes_ok_app; auto|].
+      rewrite app_assoc, unpack_s_cons, (take_bits_app _ _ _ _ _ [0] Ht), E0. cbn [app].
+      rewrite unpack_s_nil. cbn [option_map fst]. reflexivity. }
+    destruct (tag =? 255) eqn:E255.
+    { exists (e ++ [0]). eexists. split; [apply bytes_ok_app; auto|].
+      rewrite app_assoc, unpack_s_cons, (take_bits_app _ _ _ _ _ [0] Ht), E0, E255. cbn [app].
+      cbv zeta. change (8 * Z.to_nat 0)%nat with O.
+      cbn [length Nat.ltb Nat.leb andb firstn skipn Nat.sub]. rewrite unpack_s_nil.
+      cbn [option_map fst]. reflexivity. }
+    exists e. eexists. split; [assumption|].
+    rewrite unpack_s_cons, Ht, E0, E255, unpack_s_nil. cbn [option_map fst]. reflexivity. }
+  pose proof (take_bits_length _ _ _ _ _ E) as (_ & Hle & pre & Hpre & _).
+  assert (Hs1 : bytes_ok s1) by (subst s; eapply bytes_ok_suffix; eassumption).
+  destruct (tag =? 0) eqn:E0.
+  { destruct s1 as [|c s2].
+    - exists [0]. eexists. split; [assumption|].
+      rewrite unpack_s_cons, (take_bits_app _ _ _ _ _ [0] E), E0. cbn [app].
+      rewrite unpack_s_nil. cbn [option_map fst]. reflexivity.
+    - inversion Hs1; subst. cbn [length] in Hle.
+      destruct (IH s2 ltac:(lia) ltac:(assumption)) as (ext & more & Hext & Hu).
+      exists ext, more. split; [assumption|].
+      rewrite unpack_s_cons, (take_bits_app _ _ _ _ _ ext E), E0. cbn [app].
+      rewrite Hu. cbn [option_map]. unfold pmap. cbn [fst]. now rewrite <- !app_assoc. }
+  destruct (tag =? 255) eqn:E255.
+  { destruct s1 as [|c s2].
+    - exists [0]. eexists. split; [assumption|].
+      rewrite unpack_s_cons, (take_bits_app _ _ _ _ _ [0] E), E0, E255. cbn [app].
+      cbv zeta. change (8 * Z.to_nat 0)%nat with O.
+      cbn [length Nat.ltb Nat.leb andb firstn skipn Nat.sub]. rewrite unpack_s_nil.
+      cbn [option_map fst]. reflexivity.
+    - inversion Hs1; subst. cbn [length] in Hle. cbv zeta.
+      destruct (length s2 <? 8 * Z.to_nat c)%nat eqn:El.
+      + (* the literal run is cut: fill it up *)
+        set (k := (8 * Z.to_nat c)%nat) in *. set (m := (8 * (length s2 / 8))%nat).
+        exists (zeros (k - length s2)), (skipn m s2 ++ zeros (k - length s2)).
+        split; [apply bytes_ok_zeros|].
+        assert (Hlen : length (s2 ++ zeros (k - length s2)) = k)
+          by (rewrite app_length, length_zeros; lia).
+        set (zz := zeros (k - length s2)) in *.
+        rewrite unpack_s_cons, (take_bits_app _ _ _ _ _ zz E), E0, E255.
+        cbn [app]. cbv zeta. fold k.
+        replace (length (s2 ++ zz) <? k)%nat with false by lia.
+        rewrite andb_false_r, firstn_all2, skipn_all2 by lia. rewrite unpack_s_nil.
+        cbn [option_map fst]. replace (k - length (s2 ++ zz))%nat with O by lia.
+        change (zeros 0) with (@nil Z). cbn [app]. rewrite app_nil_r. f_equal.
+        rewrite <- app_assoc. f_equal. rewrite app_assoc, firstn_skipn. reflexivity.
+      + destruct (IH (skipn (8 * Z.to_nat c) s2)) as (ext & more & Hext & Hu);
+          [rewrite skipn_length; lia|now apply bytes_ok_skipn|].
+        exists ext, more. split; [assumption|].
+        rewrite unpack_s_cons, (take_bits_app _ _ _ _ _ ext E), E0, E255. cbn [app]. cbv zeta.
+        replace (length (s2 ++ ext) <? 8 * Z.to_nat c)%nat with false by (rewrite app_length; lia).
+        rewrite andb_false_r, firstn_app_le, skipn_app_le by lia.
+        rewrite Hu. cbn [option_map]. unfold pmap. cbn [fst].
+        replace (8 * Z.to_nat c - length (s2 ++ ext))%nat with O by (rewrite app_length; lia).
+        change (zeros 0) with (@nil Z). cbn [app]. now rewrite <- !app_assoc. }
+  destruct (IH s1 ltac:(lia) Hs1) as (ext & more & Hext & Hu).
+  exists ext, more. split; [assumption|].
+  rewrite unpack_s_cons, (take_bits_app _ _ _ _ _ ext E), E0, E255, Hu.
+  cbn [option_map]. unfold pmap. cbn [fst]. now rewrite <- app_assoc.
+Qed.
+
+Theorem unpack_partial_sound src : bytes_ok src ->
+  exists ext more, bytes_ok ext /\ unpack (src ++ ext) = Some (fst (unpack_partial src) ++ more).
+Proof. intros Hb. apply (unpack_partial_sound_n (length src)); [lia|assumption]. Qed.
